@@ -3,4 +3,4 @@ From Coq Require Import Extraction ExtrOcamlBasic.
 From Tele Require Import Lib.Bytes Lib.Calendar Model.Span.
 Extraction Language OCaml.
 Extraction "c09_model.ml" weekend_of_bytes counter_span span_ok meta_time_begin meta_time_end
-  name_date rotate_keeps uploader_consumes uploader_week uploader_reads fmt_date has_suffix second_opener beq timer_chain timer_delay.
+  name_date rotate_keeps uploader_consumes uploader_week uploader_reads fmt_date has_suffix second_opener beq timer_chain timer_delay run_entries run_leaves.
